@@ -174,12 +174,17 @@ class ConfigList(ComposedNode, list):
             if not node.ayns.delete:
                 return True
             current = self.ayns.get_first_not_missing_node(path)
+            if current is self and other.ayns.has_priority_over(self, if_equal=True):
+                # nothing stands at that place yet, and the list it comes with is not outranked: a weaker element is content of that list
+                return True
             return node.ayns.has_priority_over(current, if_equal=True)
 
         if isinstance(other, ComposedNode):
-            other.ayns.filter_nodes(keep_if_exists)
+            other.ayns.filter_nodes(keep_if_exists, holes='always')
 
-        return super().ayns.on_merge_impl(prefix, other)
+        ret = super().ayns.on_merge_impl(prefix, other)
+        ComposedNode._drop_holes(ret)
+        return ret
 
     @namespace('ayns')
     def on_evaluate_impl(self, path, ctx):
